@@ -26,7 +26,7 @@ def sh(cmd, cwd=None, env=None, timeout=1500):
 def confirm(src: str) -> dict:
     prop = json.load(open(os.path.join(src, 'meta.json')))['property'] if os.path.exists(os.path.join(src, 'meta.json')) else '?'
     n = os.path.basename(src.rstrip('/'))
-    name = f'{prop}-r2-{n}' if '/w2/' in src else (f'{prop}-r3-{n}' if '/w3/' in src else (f'{prop}-r4-{src.rstrip("/").split("/")[-3]}{n}' if '/w4/' in src else (f'{prop}-r5-{src.rstrip("/").split("/")[-3]}{n}' if '/w5/' in src else (f'{prop}-r6-{src.rstrip("/").split("/")[-3]}{n}' if '/w6/' in src else f'{prop}-{n}'))))
+    name = f'{prop}-r7-{src.rstrip("/").split("/")[-3]}{n}' if '/w7/' in src else f'{prop}-r2-{n}' if '/w2/' in src else (f'{prop}-r3-{n}' if '/w3/' in src else (f'{prop}-r4-{src.rstrip("/").split("/")[-3]}{n}' if '/w4/' in src else (f'{prop}-r5-{src.rstrip("/").split("/")[-3]}{n}' if '/w5/' in src else (f'{prop}-r6-{src.rstrip("/").split("/")[-3]}{n}' if '/w6/' in src else f'{prop}-{n}'))))
     if not os.path.exists(os.path.join(src, 'meta.json')) or not os.path.exists(os.path.join(src, 'patch.diff')):
         return {'seed': name, 'source': src, 'status': 'incomplete'}
     wt = tempfile.mkdtemp(prefix=f'seedwt_{name}_', dir='/tmp')
